@@ -349,6 +349,9 @@ next:
 				for n += nn; nn != 0 && clean && err == nil; n += nn {
 					nn, err, clean = streamTo(i, w)
 				}
+				if err != nil {
+					clean = false // the remaining chunks of the streamed string are still unread
+				}
 			}
 			return n, err, clean
 		}
@@ -361,6 +364,7 @@ next:
 			lr.R = i
 			lr.N = n
 			n, err = io.Copy(w, lr)
+			full = lr.N + 2 + n // what is left to discard counts from the bytes READ, which exceed the bytes written when w fails
 			lr.R = nil
 			lrs.Put(lr)
 		} else if typ == typeChunk {
